@@ -118,7 +118,7 @@ type ttxSchedule struct {
 }
 
 var g0National = map[int]map[byte]string{
-	0: {0x23: "£", 0x24: "$", 0x40: "@", 0x5c: "½", 0x5f: "#", 0x7b: "¼", 0x7d: "¾", 0x7e: "÷"},
+	0: {0x23: "£", 0x24: "$", 0x40: "@", 0x5b: "←", 0x5c: "½", 0x5d: "→", 0x5e: "↑", 0x5f: "#", 0x60: "—", 0x7b: "¼", 0x7c: "‖", 0x7d: "¾", 0x7e: "÷"}, // ETS 300 706 Table 36, English
 	1: {0x23: "é", 0x24: "ï", 0x40: "à", 0x5b: "ë", 0x5c: "ê", 0x5d: "ù", 0x5e: "î", 0x5f: "#", 0x60: "è", 0x7b: "â", 0x7c: "ô", 0x7d: "û", 0x7e: "ç"},
 	7: {0x23: "£", 0x24: "$", 0x40: "@", 0x5c: "½", 0x5f: "#", 0x7b: "¼", 0x7d: "¾", 0x7e: "÷"}, // no national option: the Latin G0 table as it stands
 	4: {0x23: "#", 0x24: "$", 0x40: "§", 0x5b: "Ä", 0x5c: "Ö", 0x5d: "Ü", 0x5e: "^", 0x5f: "_", 0x60: "°", 0x7b: "ä", 0x7c: "ö", 0x7d: "ü", 0x7e: "ß"},
@@ -174,7 +174,7 @@ func randTtxRow(r *rng, row, charset int) ttxRow {
 			case 1: // a national option position
 				pos := []byte{0x23, 0x24, 0x40, 0x5b, 0x5c, 0x5d, 0x5e, 0x5f, 0x60, 0x7b, 0x7c, 0x7d, 0x7e}
 				c = pos[r.intn(len(pos))]
-				if (charset == 0 || charset == 7) && englishAmbiguous[c] {
+				if charset == 7 && englishAmbiguous[c] { // option-less code 7: the library's Latin table as it stands, not the standard's business
 					c = 'e'
 				}
 			default:
@@ -319,10 +319,12 @@ func buildTS(r *rng, sch *ttxSchedule, mux ttxMux) ([]byte, []ttxCue, error) {
 			units = append(units, dataUnit(0x03, 8, 30, []byte{ham84(0)}))
 		}
 		if mux.x28 {
-			// X/28/0 format 1 and M/29/0 with an all-zero first triplet: designate the default G0 set
-			units = append(units, dataUnit(0x03, sch.Magazine, 28, []byte{ham84(0)}), dataUnit(0x03, sch.Magazine, 29, []byte{ham84(0)}))
+			// X/28/0 format 1 and M/29/0 whose first triplet (Hamming 24/18) designates the default G0 set
+			def := append([]byte{ham84(0)}, tripletBytes(ham2418Word(0))...)
+			units = append(units, dataUnit(0x03, sch.Magazine, 28, def), dataUnit(0x03, sch.Magazine, 29, def))
 			if r.chance(1, 2) {
-				units = append(units, dataUnit(0x03, sch.Magazine, 28, []byte{ham84(4)}), dataUnit(0x03, sch.Magazine, 29, []byte{ham84(1)}))
+				units = append(units, dataUnit(0x03, sch.Magazine, 28, append([]byte{ham84(4)}, tripletBytes(ham2418Word(uint32(r.intn(8))<<7)^1<<uint(r.intn(24)))...)),
+					dataUnit(0x03, sch.Magazine, 29, append([]byte{ham84(1)}, tripletBytes(ham2418Word(uint32(r.intn(1<<18))))...)))
 			}
 		}
 		if mux.distractors && r.chance(1, 2) {
